@@ -474,8 +474,11 @@ package table
 //@   requires m != nil && m.store != nil
 //@   ensures err == nil ==> fresh(m.lastTables)
 //@   ensures [C14.list.slice] err == nil ==> fresh(ts) && forall j int :: 0 <= j && j < len(ts) ==> has(m.lastTables, ts[j].Name) && m.lastTables[ts[j].Name] == ts[j]
+//@   ensures [C14.list.names] err == nil ==> forall n string :: has(m.lastTables, n) ==> m.lastTables[n].Name == n
+//@   ensures [C14.list.complete+C05] err == nil ==> forall n string :: has(m.lastTables, n) ==> exists j int :: 0 <= j && j < len(ts) && ts[j] == m.lastTables[n]      // every catalogued table is listed - also one whose restore is in flight
 //@   modifies m.lastTables
 //@   loop 0 invariant tabs == m.lastTables && tabs != nil && fresh(rtabs) && forall j int :: 0 <= j && j < len(rtabs) ==> has(tabs, rtabs[j].Name) && tabs[rtabs[j].Name] == rtabs[j]
+//@   loop 0 invariant forall n string :: rangeSeen(0, n) ==> has(tabs, n) && exists j int :: 0 <= j && j < len(rtabs) && rtabs[j] == tabs[n]
 //@ func (*Manager).getTables
 //@   params m
 //@   results tables, err
@@ -578,12 +581,17 @@ package table
 //@   requires m != nil && m.nh != nil && m.store != nil
 //@   before dragonboat.(*NodeHost).StaleRead assert [C14.stop.path] shardID == clusterID && typeIs(query, fsm.PathRequest)
 //@   before dragonboat.(*NodeHost).StopShard assert [C14.stop.shard] shardID == clusterID
+//@   before table.store.Set assert [C14.stop.record] ver == (m.store.rHas[key] ? m.store.rPair[key].Ver : 0)      // the cleanup record is written at the version just read: a record left behind by an interrupted stop does not block the next one
 //@   modifies m.store.rHas, m.store.rMiss, m.store.rPair, m.store.nwk, m.store.wVal, m.store.wVer, m.store.wDel, m.store.wPrevHas, m.store.wPrev, world.clock
 
 //@ import dragonboat "github.com/lni/dragonboat/v4"
+// (volatile ghost lastNhi: the report just obtained - forgotten at the next call)
+//@ ghostfield volatile any.lastNhi *dragonboat.NodeHostInfo
 //@ func dragonboat.(*NodeHost).GetNodeHostInfo
 //@   assumed
-//@   modifies nothing
+//@   params nh, opt
+//@   ensures world.lastNhi == result
+//@   modifies world.lastNhi
 
 //@ func (*Manager).reconcile$1
 //@   results tabs, nhi, err
